@@ -763,6 +763,9 @@ func (e *Env) evalComposite(y *ast.CompositeLit, st *State, addr bool) Value {
 		for k := 0; k < u.NumFields(); k++ {
 			f := u.Field(k)
 			if _, isArr := f.Type().Underlying().(*types.Array); isArr {
+				if av, given := sv.F[f.Name()].(*SliceV); given && av != nil {
+					c.storeField(st, ref, t, f, av)
+				}
 				continue
 			}
 			c.storeField(st, ref, t, f, sv.F[f.Name()])
@@ -796,7 +799,7 @@ func (e *Env) evalComposite(y *ast.CompositeLit, st *State, addr bool) Value {
 			if _, isKV := el.(*ast.KeyValueExpr); isKV {
 				return sl
 			}
-			c.storeElem(st, sl, c.idxC(int64(i)), e.eval(el, st))
+			c.storeElem(st, sl, c.idxC(int64(i)), e.convertAssign(e.eval(el, st), e.Info.TypeOf(el), u.Elem(), st))
 		}
 		return sl
 	case *types.Map:
